@@ -15,6 +15,11 @@ fn main() {
         let Some(path) = args.get(1) else { usage() };
         std::process::exit(rt::props::replay_file(std::path::Path::new(path)));
     }
+    if args[0] == "--worker" {
+        let Some(mode) = args.get(1) else { usage() };
+        rt::props::worker(mode);
+        return;
+    }
     let prop = args[0].clone();
     let tier = match args
         .get(1)
